@@ -476,7 +476,19 @@ def rule_dedup(repo: Repo) -> RuleResult:
                 if loops_ and not comps_:
                     if not L.must_pass_in_loop(G, {"present": False}, loops_[0], {st.node}):
                         skipped = st
-        if bad is None and skipped is not None:
+        left_early = None
+        if bad is None and skipped is None:
+            for st in adds:
+                stmt = st.site
+                while stmt in pmf and not isinstance(stmt, ast.stmt):
+                    stmt = pmf[stmt]
+                loops_ = [a_ for a_ in _anc_nodes(pmf, stmt) if isinstance(a_, ast.For)]
+                if loops_ and any(L.leaves_loop_early(G, {"present": pres}, loops_[0]) for pres in (True, False)):
+                    left_early = st
+        if bad is None and skipped is None and left_early is not None:
+            r.fail(Finding("C17.dedup", f, "facts-loop-left-early", "the walk over an agent's facts can end at the first fact that is already present (or inserted): "
+                           "the remaining facts of that agent are left out of the combination", node=left_early.site))
+        elif bad is None and skipped is not None:
             r.fail(Finding("C17.dedup", f, "facts-skipped", "a fact whose ground text is not present yet can be left out of the combination: another test "
                            "decides whether it is inserted", node=skipped.site))
         elif bad is None:
